@@ -12,12 +12,15 @@ SHARDS = {"quick": 1, "thorough": 12}
 from vf import env  # noqa
 import os
 
-FAMILIES = ["same-seqnum-top", "newest-unrecoverable", "healthy", "newest-plus-stale-extras", "missing-some",
-            "old-and-new", "corrupt-deep", "newest-plus-recoverable-extras", "corrupt-invalid", "random",
-            "same-seqnum-lower", "same-seqnum-top", "newest-unrecoverable", "newest-plus-stale-extras", "old-and-new",
-            "corrupt-deep", "newest-plus-recoverable-extras", "random", "unreachable", "corrupt-duplicate",
-            "corrupt-newest-complete-older", "corrupt-privkey", "corrupt-privkey",
-            "same-seqnum-top-plus-older"]
+# One directed family per mechanism that a planted or seeded change has broken so far (every other round), general
+# families in between.  Each directed family has a required reach counter.
+DIRECTED = ["newest-unrecoverable", "newest-unrecoverable-dup-copies", "same-seqnum-top", "same-seqnum-top-plus-older",
+            "corrupt-privkey", "corrupt-deep", "newest-plus-stale-extras", "newest-unrecoverable-dup-copies",
+            "newest-plus-recoverable-extras", "same-seqnum-top-plus-older", "older-first-in-order", "missing-some",
+            "corrupt-duplicate", "corrupt-newest-complete-older"]
+OTHER = ["healthy", "old-and-new", "corrupt-invalid", "random", "same-seqnum-lower", "unreachable", "older-first-in-order",
+         "old-and-new"]
+FAMILIES = DIRECTED + OTHER
 MAX_STEPS = 3000      # scheduler steps per operation (a check/repair here needs a few hundred): a client that loops
 #                       forever (see C10 read-never-completes) must not stall the run
 INVALID_KINDS = ["hdr"]                       # signed fields edited: every survey drops the share
@@ -69,17 +72,22 @@ def run(ck):
                      "unforced-repair-refused-newer-unrecoverable", "unforced-repair-refused-same-seqnum",
                      "forced-repair-over-newer-unrecoverable", "forced-repair-with-same-seqnum-competitors",
                      "repair-succeeded", "repair-replaced-corrupt-share", "check-and-repair-repaired",
-                     "post-repair-n-distinct-shares-alone-suffice", "verify-found-corrupt-private-key")
+                     "post-repair-n-distinct-shares-alone-suffice", "verify-found-corrupt-private-key",
+                     "unforced-repair-refused-newer-unrecoverable-version-with-k-share-copies",
+                     "unforced-repair-refused-same-seqnum-with-a-third-recoverable-version",
+                     "check-and-repair-refused-to-repair", "unhealthy-only-because-of-older-unrecoverable-shares",
+                     "repair-succeeded-with-an-older-version-on-the-servers-asked-first")
 
 
 def gen_params(rng):
     fmt = rng.choice(["SDMF", "MDMF"])
-    k, n = rng.choice([(1, 2), (1, 3), (2, 3), (2, 4), (2, 6), (3, 5), (3, 7), (3, 10), (2, 5), (1, 4)])
+    k, n = rng.choice([(1, 2), (1, 3), (2, 3), (2, 4), (2, 6), (3, 5), (3, 7), (3, 10), (2, 5), (1, 4), (2, 4), (2, 6),
+                       (3, 7)])
     nservers = rng.choice([3, 4, 5, 6, 8, 10, max(3, n), max(3, n + 1)])
-    nver = rng.choice([1, 2, 2, 3, 3, 4, 5])
+    nver = rng.choice([1, 2, 2, 3, 3, 3, 4, 4, 5])
     sizes = [rng.randint(8, 400) for _ in range(nver)]
     return dict(fmt=fmt, k=k, n=n, nservers=nservers, segsize=rng.choice([30, 64, 128, 1000]), sizes=sizes,
-                nforks=rng.choice([0, 1, 1, 2, 2]))
+                nforks=rng.choice([0, 1, 1, 1, 2, 2, 2]))
 
 
 def corrupt_raw(M, raw, kind, rng):
@@ -211,7 +219,8 @@ class History(object):
         for r in range(rounds):
             if self.ck.out_of_time() or self.runaway:
                 break
-            fam = FAMILIES[self.counter[0] % len(FAMILIES)]
+            n_ = self.counter[0]
+            fam = DIRECTED[(n_ // 2) % len(DIRECTED)] if n_ % 2 == 0 else OTHER[(n_ // 2) % len(OTHER)]
             self.counter[0] += 1
             self.one_round(fam)
 
@@ -249,7 +258,10 @@ class History(object):
             fam, plus_older = "same-seqnum-top", True
         if fam in ("same-seqnum-top", "same-seqnum-lower") and not (top_forks if fam == "same-seqnum-top" else low_forks):
             fam = "random"
-        if fam in ("newest-unrecoverable", "old-and-new") and newest == 0:
+        dup_copies = False
+        if fam == "newest-unrecoverable-dup-copies":
+            fam, dup_copies = "newest-unrecoverable", True
+        if fam in ("newest-unrecoverable", "old-and-new", "older-first-in-order") and newest == 0:
             fam = "missing-some"
         if fam in ("newest-plus-stale-extras", "newest-plus-recoverable-extras", "corrupt-newest-complete-older") \
                 and len(V) < 2:
@@ -336,10 +348,34 @@ class History(object):
             old = rng.randrange(newest)
             for idx in holders:
                 states[idx] = ("v", newest) if idx in few else ("v", rng.choice([old, old, rng.randrange(newest)]))
-            if rng.random() < .3:
+            if rng.random() < .3 and not dup_copies:
                 for idx in rng.sample(holders, 1):
                     if idx not in few:
                         states[idx] = ("empty",)
+            if dup_copies and few:
+                # the newest version stays below k DISTINCT share numbers, but second copies of those share numbers on
+                # other servers bring the number of share files to k or more
+                have = sorted(shares_of(few, newest))
+                copies = sum(len(V[newest]["snap"].get(idx, {})) for idx in few)
+                want = rng.choice([V[newest]["k"], V[newest]["k"] + 1])
+                tries = 0
+                while copies < want and tries < 40:
+                    tries += 1
+                    sh = rng.choice(have)
+                    cands = [vs.index for vs in self.g.servers if vs.index not in few and (vs.index, sh) not in extras
+                             and not (states.get(vs.index, ("empty",))[0] == "v"
+                                      and sh in V[states[vs.index][1]]["snap"].get(vs.index, {}))]
+                    if cands:
+                        extras[(rng.choice(cands), sh)] = newest
+                        copies += 1
+        elif fam == "older-first-in-order":
+            # an older version on the servers a bounded MODE_READ survey asks first, the newest complete behind them
+            old = rng.randrange(newest)
+            first = [idx for idx in self.order if idx in self.holders][:2 * k]
+            while first and len(shares_of([x for x in self.holders if x not in first], newest)) < V[newest]["k"]:
+                first = first[:-1]
+            for idx in self.holders:
+                states[idx] = ("v", old) if idx in first else ("v", newest)
         elif fam == "same-seqnum-top":
             f = rng.choice(top_forks)
             half = rng.randint(1, max(1, len(holders) - 1))
@@ -553,10 +589,12 @@ class History(object):
         plan = rng.choice([["check", "repair"], ["check", "check", "repair"], ["car"], ["check", "car"], ["car"],
                            ["check", "repair"]])
         force = rng.random() < .5
-        if fam in ("same-seqnum-top", "newest-unrecoverable") and rng.random() < .7:
-            plan = ["check", "repair"]
+        if fam in ("same-seqnum-top", "newest-unrecoverable", "newest-unrecoverable-dup-copies",
+                   "same-seqnum-top-plus-older", "older-first-in-order"):
             self.counter[1] += 1
-            force = self.counter[1] % 2 == 0        # alternate so both refusal and forced repair are reached early
+            turn = self.counter[1] % 4              # unforced repair, check_and_repair, unforced repair, forced repair
+            plan = ["car"] if turn == 1 else ["check", "repair"]
+            force = turn == 3 and fam not in ("newest-unrecoverable-dup-copies", "same-seqnum-top-plus-older")
         if fam == "corrupt-privkey":
             # only a verifying check with the write-cap looks at encrypted private keys.  One ordered connection per
             # server (the key read is sent before the block reads) and local processing first: the key verdict of a share
@@ -629,6 +667,11 @@ class History(object):
                  summary=str(results.get_summary())[:200])
         ck.mon("health-oracle")
         ck.hit("healthy-reported" if results.is_healthy() else "unhealthy-reported")
+        inv_h, _ = self.inventory(servers, 0, True)
+        rec_h, unrec_h, best_h, newer_h = self.analyse(inv_h)
+        if not results.is_healthy() and len(rec_h) == 1 and unrec_h and not newer_h and \
+                len(inv_h[rec_h[0]]) >= V[rec_h[0]]["N"] and not corrupt_seen:
+            ck.hit("unhealthy-only-because-of-older-unrecoverable-shares")
         open_case = False
         if not verify and corrupt_seen:
             # shares whose signature or signed fields the harness broke: a survey drops them, counted as absent above;
@@ -739,7 +782,17 @@ class History(object):
             rec2, unrec2, best2, newer2 = self.analyse(inv2)
             views.add((tuple(sorted(rec2)), tuple(sorted(best2)), tuple(sorted(newer2)),
                        tuple(sorted(set(self.versions[v]["seq"] for v in inv2)))))
+        copies = {}
+        for (idx, sh), (vid, kind) in self.truth.items():
+            if idx in reachable and kind not in INVALID_KINDS:
+                copies[vid] = copies.get(vid, 0) + 1
+        first = [idx for idx in self.order if idx in self.holders][:2 * self.p["k"]]
+        older_first = bool(best) and bool(first) and all(
+            any(self.truth.get((idx, sh), (None,))[0] not in best for sh in range(self.p["n"])
+                if (idx, sh) in self.truth) for idx in first if idx in reachable)
         return dict(inv=inv, rec=rec, best=best, newer=newer, corrupt=corrupt_seen,
+                    newer_with_k_copies=any(copies.get(v, 0) >= self.versions[v]["k"] for v in newer),
+                    older_first=older_first,
                     ambiguous=len(views) != 1,
                     seqs=sorted(set(self.versions[v]["seq"] for v in inv)))
 
@@ -764,6 +817,12 @@ class History(object):
                              % (op, "reported success" if successful else "did not report success", len(writes), why), w)
             else:
                 ck.hit("unforced-repair-refused-" + ("newer-unrecoverable" if pre["newer"] else "same-seqnum"))
+                if pre["newer"] and pre["newer_with_k_copies"]:
+                    ck.hit("unforced-repair-refused-newer-unrecoverable-version-with-k-share-copies")
+                if not pre["newer"] and len(pre["rec"]) >= 3:
+                    ck.hit("unforced-repair-refused-same-seqnum-with-a-third-recoverable-version")
+                if op.startswith("check_and_repair"):
+                    ck.hit("check-and-repair-refused-to-repair")
             return
         if force and pre["newer"] and status == "ok" and successful:
             ck.hit("forced-repair-over-newer-unrecoverable")
@@ -780,6 +839,8 @@ class History(object):
         # ---- successful repair: post-conditions
         ck.mon("post-repair-oracle")
         ck.hit("repair-succeeded")
+        if pre["older_first"] and len(pre["rec"]) >= 2:
+            ck.hit("repair-succeeded-with-an-older-version-on-the-servers-asked-first")
         if pre["corrupt"]:
             ck.hit("repair-replaced-corrupt-share")
         if not pre["best"]:
